@@ -107,6 +107,18 @@ date_operators = [
     '$week',
     '$year',
 ]
+date_part_operators = [
+    '$dayOfMonth',
+    '$dayOfWeek',
+    '$dayOfYear',
+    '$hour',
+    '$millisecond',
+    '$minute',
+    '$month',
+    '$second',
+    '$week',
+    '$year',
+]
 conditional_operators = ['$cond', '$ifNull']
 array_operators = [
     '$concatArrays',
@@ -438,8 +450,10 @@ class _Parser(object):
             return _GROUPING_OPERATOR_MAP[operator](values)
         if operator == '$arrayElemAt':
             key, value = values
-            array = self.parse(key)
-            index = self.parse(value)
+            array = self._parse_or_nothing(key)
+            index = self._parse_or_nothing(value)
+            if array is None or array is NOTHING or index is None or index is NOTHING:
+                return None
             try:
                 return array[index]
             except IndexError as error:
@@ -492,11 +506,11 @@ class _Parser(object):
 
     def _handle_string_operator(self, operator, values):
         if operator == '$toLower':
-            parsed = self.parse(values)
-            return str(parsed).lower() if parsed is not None else ''
+            parsed = self._parse_or_nothing(values)
+            return str(parsed).lower() if parsed is not None and parsed is not NOTHING else ''
         if operator == '$toUpper':
-            parsed = self.parse(values)
-            return str(parsed).upper() if parsed is not None else ''
+            parsed = self._parse_or_nothing(values)
+            return str(parsed).upper() if parsed is not None and parsed is not NOTHING else ''
         if operator == '$concat':
             parsed_list = list(self.parse_many(values))
             for parsed_item in parsed_list:
@@ -540,7 +554,10 @@ class _Parser(object):
         if operator == '$strcasecmp':
             if len(values) != 2:
                 raise OperationFailure('strcasecmp must have 2 items')
-            a, b = str(self.parse(values[0])).upper(), str(self.parse(values[1])).upper()
+            # A null or missing operand compares as the empty string.
+            a, b = [
+                '' if parsed is None or parsed is NOTHING else str(parsed).upper()
+                for parsed in [self._parse_or_nothing(value) for value in values]]
             return 0 if a == b else -1 if a < b else 1
         if operator == '$regexMatch':
             if not isinstance(values, dict):
@@ -612,6 +629,11 @@ class _Parser(object):
             value = self.parse(values['date'])
             target_tz = pytz.timezone(values['timezone'])
             out_value = value.replace(tzinfo=pytz.utc).astimezone(target_tz)
+        elif operator in date_part_operators:
+            # The parts of a null or missing date are null.
+            out_value = self._parse_or_nothing(values)
+            if out_value is None or out_value is NOTHING:
+                return None
         else:
             out_value = self.parse(values)
 
@@ -781,7 +803,9 @@ class _Parser(object):
             if missing_params:
                 raise OperationFailure("Missing '%s' parameter to $filter" % missing_params.pop())
 
-            input_array = self.parse(value['input'])
+            input_array = self._parse_or_nothing(value['input'])
+            if input_array is None or input_array is NOTHING:
+                return None
             fieldname = value.get('as', 'this')
             cond = value['cond']
             return [
@@ -835,6 +859,8 @@ class _Parser(object):
             try:
                 parsed = self.parse(values)
             except KeyError:
+                return None
+            if parsed is None:
                 return None
             if isinstance(parsed, bool):
                 return str(parsed).lower()
